@@ -13,3 +13,4 @@ PROPERTIES
   C09_Frame
   C09_Effects
   C09_AddExistingRejected
+  C09_Leaves
